@@ -364,7 +364,7 @@ def run(ctx):
             # returned value is the message, under count == size
             for pn, lab in bg.exit.pred:
                 s = pn.stmt
-                okret = returns_message(s, msg, joined) if msg else False
+                okret = returns_message(s, msg, joined, brd, pn) if msg else False
                 eq = False
                 for t, l2 in dominating_edges(bg, pn):
                     q = cmp_parts(t.stmt)
